@@ -413,10 +413,17 @@ class ConfigLoader(BaseLoader):
         BaseLoader.__init__(self)
         self.schema = schema
         self._private_schema = False
+        # URLs of the resources currently being parsed (the top resource
+        # and the chain of %include-s below it)
+        self._open_urls = []
 
     def loadResource(self, resource):
         sm = self.createSchemaMatcher()
-        self._parse_resource(sm, resource)
+        self._open_urls.append(resource.url)
+        try:
+            self._parse_resource(sm, resource)
+        finally:
+            self._open_urls.pop()
         result = sm.finish(), CompositeHandler(sm.handlers, self.schema)
         return result
 
@@ -454,8 +461,15 @@ class ConfigLoader(BaseLoader):
 
     def includeConfiguration(self, section, url, defines):
         url = self.normalizeURL(url)
-        with self.openResource(url) as r:
-            self._parse_resource(section, r, defines)
+        if url in self._open_urls:
+            raise ZConfig.ConfigurationError(
+                "recursive %include of " + url, url)
+        self._open_urls.append(url)
+        try:
+            with self.openResource(url) as r:
+                self._parse_resource(section, r, defines)
+        finally:
+            self._open_urls.pop()
 
     # internal helper
 
